@@ -2,6 +2,7 @@ package main
 
 import (
 	"encoding/json"
+	"github.com/cloudwego/gopkg/protocol/thrift"
 	"math/rand"
 )
 
@@ -75,6 +76,23 @@ func structCases(c *Ctx) []json.RawMessage {
 	var out []json.RawMessage
 	add := func(s StructCase) { out = append(out, mustJSON(s)) }
 	rng := rand.New(rand.NewSource(c.Seed*7368787 + 11))
+	// values that coincide with what a reader would produce by DEFAULT: a message equal to the default text of the
+	// exception's own type id (and of a neighbouring id, and a near miss of it); such a value must still travel
+	lit := func(t string) StrSpec {
+		sp := StrSpec{Lit: []int{}}
+		for _, b := range []byte(t) {
+			sp.Lit = append(sp.Lit, int(b))
+		}
+		return sp
+	}
+	for t := int32(-1); t <= 12; t++ {
+		for _, dt := range []int32{t, t + 1} {
+			txt := thrift.NewApplicationException(dt, "").Error()
+			add(StructCase{Schema: "AppEx", S: []StrSpec{lit(txt)}, I: int64(t)})
+			add(StructCase{Schema: "AppEx", S: []StrSpec{lit(txt + " ")}, I: int64(t)})
+			add(StructCase{Schema: "BaseResp", S: []StrSpec{lit(txt)}, I: int64(t)})
+		}
+	}
 	for _, schema := range []string{"Base", "BaseResp", "AppEx"} {
 		add(StructCase{Schema: schema, S: make([]StrSpec, map[string]int{"Base": 3, "BaseResp": 1, "AppEx": 1}[schema])})
 		if schema != "AppEx" {
